@@ -143,15 +143,20 @@ def conditional_part(ck, tier):
                 lo[i], hi[i] = cm[i] - sd[i] * rng.uniform(20, 60), cm[i] + sd[i] * rng.uniform(20, 60)
             elif mode == 1:    # bounds cut one tail
                 lo[i], hi[i] = cm[i] - sd[i] * rng.uniform(0.5, 2), cm[i] + sd[i] * rng.uniform(6, 12)
-            elif mode == 4:    # very wide bounds (1e4 .. 1e8 conditional widths): met only through the conditioning coordinate
+            elif mode == 4:    # wide to very wide bounds (2e2 .. 1e8 conditional widths): met only through the conditioning coordinate
                 # (one side sweeps the decades 1e4 .. 1e8 in turn, so that every run meets the widest ones)
-                e_hi = 4.0 + ((case // 5 + i) % 5) - rng.uniform(0.0, 0.2) + (0.2 if (case // 5 + i) % 5 == 0 else 0.0)
-                lo[i], hi[i] = cm[i] - sd[i] * 10.0 ** rng.uniform(4, 8), cm[i] + sd[i] * 10.0 ** e_hi
+                e_hi = (2.7, 3.4, 5.0, 6.5, 7.9)[(case // 5 + i) % 5] + rng.uniform(-0.1, 0.1)
+                lo[i], hi[i] = cm[i] - sd[i] * 10.0 ** rng.uniform(2.3, min(e_hi + 1.0, 8.0)), cm[i] + sd[i] * 10.0 ** e_hi
             elif mode == 2:    # bounds cut both tails
                 lo[i], hi[i] = cm[i] - sd[i] * rng.uniform(1, 3), cm[i] + sd[i] * rng.uniform(1, 3)
             else:
                 lo[i], hi[i] = cm[i] - sd[i] * rng.uniform(5, 9), cm[i] + sd[i] * rng.uniform(5, 9)
             point[i] = min(max(point[i], lo[i] + 1e-3 * sd[i]), hi[i] - 1e-3 * sd[i])
+            if mode == 2 and case % 2 == 0:
+                # a parameter pushed against a limit: the conditioning coordinate inside the LAST (or first) of the fifteen search intervals,
+                # the density still high at that bound
+                frac = rng.uniform(0.1, 0.9) * (hi[i] - lo[i]) / 15.0
+                point[i] = hi[i] - frac if (case // 2 + i) % 2 == 0 else lo[i] + frac
         for i in range(n):      # conditional means depend on the (clipped) conditioning point
             others = [j for j in range(n) if j != i]
             cm[i] = mu[i] - (P[i, others] @ (point[others] - mu[others])) / P[i, i] if others else mu[i]
